@@ -65,7 +65,7 @@ def rand_meta(rng):
         key = ''.join(rng.choice('abcXYZ-_:1\xe9#(') for _ in range(rng.randrange(1, 5)))
         if key.startswith(':') or '::' in key:
             continue
-        val = ''.join(rng.choice(list('ab 1.') + WEIRD) for _ in range(rng.randrange(0, 9)))
+        val = ''.join(rng.choice(list('ab 1.nt') + WEIRD) for _ in range(rng.randrange(0, 9)))
         if rng.random() < 0.1:
             val = rng.choice(['None', 'null', '0', 'False', 'none', S.rand_value(rng)])   # values that look like "nothing", any Unicode
         val = val.rstrip()           # the parser strips trailing whitespace (not leading)
